@@ -987,21 +987,27 @@ impl<'a> ReservedSession<'a> {
         })
     }
 
+    /// Complete the reserved session, making it available for use by the system right away
+    /// (i.e. without waiting for the `ReservedSession` instance to be dropped, which might
+    /// happen only after the last handshake message is acknowledged by the peer).
     pub fn complete(&mut self) {
         self.complete = true;
+
+        self.matter.with_state(|state| {
+            if let Some(session) = state.sessions.get(self.id) {
+                session.reserved = false;
+            }
+        })
     }
 }
 
 impl Drop for ReservedSession<'_> {
     fn drop(&mut self) {
-        self.matter.with_state(|state| {
-            if self.complete {
-                let session = unwrap!(state.sessions.get(self.id));
-                session.reserved = false;
-            } else {
+        if !self.complete {
+            self.matter.with_state(|state| {
                 state.sessions.remove(self.id);
-            }
-        })
+            })
+        }
     }
 }
 
